@@ -1785,6 +1785,62 @@ def witness_depth_cases(rng, tier):
                 yield SpendCase(fl, tx, 0, spk, 7, "witdepth/%d/%s%s" % (n, script.hex()[:8], "/p2sh" if behind_p2sh else ""))
 
 
+def cms_opcount_cases(rng, tier):
+    """CHECKMULTISIG(VERIFY) near the 201-operation limit with NON-EMPTY signatures that are really compared with
+    keys: valid for the key tried first / tried last / for no key, and well-formed over the wrong message.  NOP
+    padding puts the total on 199..203 both under consensus counting (all k keys) and under the tempting wrong
+    counting (only the keys never tried).  Without NULLFAIL a failing batch continues to NOT."""
+    ks = [1, 3, 20] if tier == "quick" else [1, 2, 3, 10, 19, 20]
+    flagsets = [0, FL["NULLFAIL"]] if tier == "quick" else [0, FL["NULLFAIL"], FL["DERSIG"] | FL["NULLFAIL"], FL["STRICTENC"], FL["NULLDUMMY"] | FL["LOW_S"]]
+    tx = SynTx(2, [[b"\x66" * 32, 1, b"", 0xFFFFFFFE, []]], [[3, b"\x51"]], 0)
+    stranger = 22                                    # a key that is in no script
+    for k in ks:
+        keys = [sec(i, "c") for i in range(k)]       # Core tries keys[-1] first, keys[0] last
+        for variant in ("match_first", "match_last", "match_none", "wrong_msg", "two_sigs"):
+            if variant == "two_sigs" and k < 3:
+                continue
+            m_ = 2 if variant == "two_sigs" else 1
+            tried = {"match_first": 1, "match_last": k, "match_none": k, "wrong_msg": k, "two_sigs": k}[variant]
+            tails = (("not", b"\xae", b"\x91"), ("verify", b"\xaf", b"\x51"), ("plain", b"\xae", b""))
+            for tail_name, cms, tail in (tails[:2] if tier == "quick" else tails):
+                tail_ops = 1 if tail_name == "not" else 0
+                totals = (199, 200, 201, 202, 203) if (tier != "quick" or k < 20) else (201, 202)
+                for total in totals:
+                    pads = {total - 1 - tail_ops - k, total - 1 - tail_ops - (k - tried)}
+                    for pad in sorted(p_ for p_ in pads if p_ >= 0):
+                        script = b"\x61" * pad + push_int(m_) + b"".join(push_raw(x) for x in keys) + push_int(k) + cms + tail
+                        dg = _digest_f(tx, 0, 3, script, "B")
+                        if variant == "match_first":
+                            sigs = [make_sig(rng, dg, k - 1, 1, "valid")]
+                        elif variant == "match_last":
+                            sigs = [make_sig(rng, dg, 0, 1, "valid")]
+                        elif variant == "match_none":
+                            sigs = [make_sig(rng, dg, stranger, 1, "valid")]
+                        elif variant == "wrong_msg":
+                            sigs = [make_sig(rng, dg, k - 1, 1, "wrong_msg")]
+                        else:                        # signatures in stack order: bottom one is checked last
+                            sigs = [make_sig(rng, dg, 0, 1, "valid"), make_sig(rng, dg, k - 1, 1, "valid")]
+                        for fi, fl in enumerate(flagsets):
+                            tag = "cms_opcount/%d/%s/%s/%d/pad%d" % (k, variant, tail_name, total, pad)
+                            yield EvalCase(fl, "B", script, [b""] + sigs, tx, 0, 3, tag)
+                            if fi == 0 or tier != "quick":
+                                t1 = SynTx(tx.version, [list(tx.vin[0])], tx.vout, tx.locktime)
+                                t1.vin[0][2] = b"\x00" + b"".join(push_raw(x) for x in sigs)
+                                yield SpendCase(fl, t1, 0, script, 3, tag)
+    # the same inside a witness script (BIP143 digest), k = 20
+    keys = [sec(i, "c") for i in range(20)]
+    for variant, signer in (("match_first", 19), ("match_none", stranger)):
+        tried = 1 if variant == "match_first" else 20
+        for total in (200, 201, 202):
+            for pad in sorted({total - 2 - 20, total - 2 - (20 - tried)}):
+                script = b"\x61" * pad + b"\x51" + b"".join(push_raw(x) for x in keys) + push_int(20) + b"\xae\x91"
+                sg = make_sig(rng, _digest_f(tx, 0, 3, script, "W"), signer, 1, "valid")
+                t1 = SynTx(tx.version, [list(tx.vin[0])], tx.vout, tx.locktime)
+                t1.vin[0][4] = [b"", sg, script]
+                yield SpendCase(close_flags(FL["WITNESS"]), t1, 0, b"\x00\x20" + sha256(script), 3, "cms_opcount_w/%s/%d/pad%d" % (variant, total, pad))
+                yield EvalCase(close_flags(FL["WITNESS"]), "W", script, [b"", sg], t1, 0, 3, "cms_opcount_w/%s/%d/pad%d" % (variant, total, pad))
+
+
 def core_find_and_delete(script: bytes, pat: bytes) -> bytes:
     """CScript::FindAndDelete, for SIGNING only (the spec has its own, extracted one): at each opcode boundary skip
     every consecutive raw copy of pat, then copy one opcode; copy the rest verbatim when GetOp fails"""
@@ -2051,7 +2107,7 @@ def prop_cases(rng, tier):
         yield PropCase("spend", c.to_json(), (lambda c=c: chk_spend(c)))
         for e in derived_eval_cases(c):
             yield PropCase("eval", e.to_json(), (lambda e=e: chk_eval(e)))
-    for c in junk_sig_batches(rng, tier):
+    for c in list(cms_opcount_cases(rng, tier)) + list(junk_sig_batches(rng, tier)):
         if isinstance(c, EvalCase):
             yield PropCase("eval", c.to_json(), (lambda c=c: chk_eval(c)))
         else:
